@@ -22,3 +22,4 @@ CONSTANTS
  UidKey <- StrUidKey
  KeyForms = {"id"}
  Dev_KeyUnchecked = FALSE
+ Dev_IdUnchecked = FALSE
